@@ -1,6 +1,17 @@
-import Fv.Lemmas.CacheFrame
+import Fv.Lemmas.CacheRegister
 /-
 C11 — cache reads return only the latest live value of their own key.
+
+The cache model (`Fv.Cache.stepOp`, one public API call run to completion, generic in the eviction
+policy and in the hash-order / victim oracles) REFINES a per-key register
+(`Fv.Cache.Reg`, `specStep`, `admissible`, `Agree` in `Fv/Lemmas/CacheRegister.lean`):
+
+* `C11_step`  : one call keeps `Agree` and hands only admissible values to its caller;
+* `C11_run`   : so does every history from a fresh cache;
+* corollaries : `no_cross_key`, `no_resurrection*`, `compute_atomic`, `orInsert_at_most_once*`.
+
+"May forget": a read may return nothing although the register holds a value (expiry, eviction,
+capacity maintenance) — the refinement is one-directional (map ⊆ register) on purpose.
 -/
 namespace Fv.Props.C11
 open Fv.Cache
@@ -18,5 +29,602 @@ theorem get_reads_own_binding (cfg : Cfg) (s : State P) (k v : Nat) (h : (s.get 
   · simp at h
 
 example : (State.get (P := Unit) {} { map := [(1, { vid := 7, cost := 1 })] } 1).2 = some 7 := by decide
+
+/-! ### the refinement step -/
+
+theorem specStep_orInsert_hit (sp : Spec) (k v c : Nat) :
+    specStep sp (.orInsert k v c) (.val (some v)) = { sp with reg := sp.reg.set k v } := by
+  simp [specStep]
+
+theorem specStep_orInsert_other (sp : Spec) (k v c : Nat) {x : Nat} (h : x ≠ v) :
+    specStep sp (.orInsert k v c) (.val (some x)) = sp := by
+  simp [specStep, h]
+
+theorem specStep_restore_some {sp : Spec} {l : List (Nat × Nat)} (h : sp.snap = some l) (r : Ret) :
+    specStep sp .restore r = { sp with reg := Reg.ofPairs l } := by
+  simp only [specStep, h]
+
+theorem specStep_restore_none {sp : Spec} (h : sp.snap = none) (r : Ret) : specStep sp .restore r = sp := by
+  simp only [specStep, h]
+
+theorem stepOp_restore (cfg : Cfg) (ops : PolicyOps P) (p0 : P) (o : Oracle) (s : State P) :
+    stepOp cfg ops p0 o s .restore =
+      (match s.snap with
+       | some sn => (State.restore cfg p0 s.now sn, .unit)
+       | none => (s.resetLogs, .unit)) := rfl
+
+/-- **C11, one step.**  For every configuration, policy, oracle, state and spec state that agree:
+    the call hands only admissible values to its caller and the resulting states agree again. -/
+theorem C11_step (cfg : Cfg) (ops : PolicyOps P) (p0 : P) (o : Oracle) (s : State P) (sp : Spec) (op : Op)
+    (h : Agree s sp) :
+    admissible sp op (stepOp cfg ops p0 o s op).2 ∧
+      Agree (stepOp cfg ops p0 o s op).1 (specStep sp op (stepOp cfg ops p0 o s op).2) := by
+  have h0 : Agree s.resetLogs sp := h.of_eq rfl rfl
+  cases op with
+  | get k =>
+    obtain ⟨hag, hok⟩ := get_agree cfg k h0
+    exact ⟨⟨(s.resetLogs.get cfg k).2, rfl, hok⟩, hag⟩
+  | peek k => exact ⟨⟨s.resetLogs.peek cfg k, rfl, peek_ok cfg k h0⟩, h0⟩
+  | occupied k => exact ⟨trivial, h0⟩
+  | insert async k vid cost =>
+    have h1 := insertCore_agree cfg k (Entry.mk' vid cost s.resetLogs.now cfg.ttl cfg.tti) cfg.ttl true h0
+    refine ⟨trivial, ?_⟩
+    cases async with
+    | true => exact h1
+    | false => exact h1.frame (opportunistic_frame ..) (opportunistic_snap ..)
+  | insertTtl async k vid cost ttl =>
+    have h1 := insertCore_agree cfg k (Entry.mkCustom vid cost s.resetLogs.now (s.resetLogs.now + ttl) cfg.tti)
+      (some ttl) true h0
+    refine ⟨trivial, ?_⟩
+    cases async with
+    | true => exact h1
+    | false => exact h1.frame (opportunistic_frame ..) (opportunistic_snap ..)
+  | remove k =>
+    obtain ⟨hag, hok⟩ := removeKey_agree cfg ops k h0
+    exact ⟨⟨(s.resetLogs.removeKey cfg ops k).2, rfl, hok⟩, hag⟩
+  | invalidate k => exact ⟨trivial, (removeKey_agree cfg ops k h0).1⟩
+  | clear =>
+    refine ⟨trivial, ?_, ?_⟩
+    · intro k e he
+      have he' : (k, e) ∈ (s.resetLogs.clearAll cfg ops o).map := he
+      rw [clearAll_map] at he'
+      cases he'
+    · show sp.snap = (s.resetLogs.clearAll cfg ops o).snap.map Snapshot.pairs
+      rw [clearAll_snap]; exact h0.2
+  | advance d => exact ⟨trivial, h0.of_eq rfl rfl⟩
+  | runMaintenance => exact ⟨trivial, h0.frame (runMaintenance_frame ..) (runMaintenance_snap ..)⟩
+  | metrics => exact ⟨trivial, h0.frame (flush_frame ..) (flush_snap ..)⟩
+  | orInsert k vid cost =>
+    show admissible sp (.orInsert k vid cost) (s.resetLogs.orInsert cfg k vid cost).2 ∧
+      Agree (s.resetLogs.orInsert cfg k vid cost).1
+        (specStep sp (.orInsert k vid cost) (s.resetLogs.orInsert cfg k vid cost).2)
+    rcases orInsert_cases cfg s.resetLogs k vid cost with ⟨e, he, heq⟩ | ⟨hn, hret, hm, hs⟩
+    · rw [heq]
+      dsimp only
+      refine ⟨⟨e.vid, rfl, .inl (h0.of_lookup he)⟩, ?_⟩
+      by_cases hv : e.vid = vid
+      · have hreg : sp.reg k = some vid := by rw [← hv]; exact h0.of_lookup he
+        rw [hv, specStep_orInsert_hit, Reg.set_eq_self _ hreg]
+        exact h0
+      · rw [specStep_orInsert_other _ _ _ _ hv]; exact h0
+    · rw [hret, specStep_orInsert_hit]
+      exact ⟨⟨vid, rfl, .inr rfl⟩,
+        h0.put_set (e := Entry.mk' vid cost s.resetLogs.now cfg.ttl cfg.tti) hm hs⟩
+  | compute k vid =>
+    show admissible sp (.compute k vid) (s.resetLogs.compute k vid).2 ∧
+      Agree (s.resetLogs.compute k vid).1 (specStep sp (.compute k vid) (s.resetLogs.compute k vid).2)
+    rcases compute_cases s.resetLogs k vid with ⟨hn, heq⟩ | ⟨e, he, hp, heq⟩ | ⟨e, he, hp, heq⟩
+    · rw [heq]; exact ⟨⟨none, rfl, fun old ho => by cases ho⟩, h0⟩
+    · rw [heq]; exact ⟨⟨some none, rfl, fun old ho => by cases ho⟩, h0⟩
+    · rw [heq]
+      refine ⟨⟨some (some e.vid), rfl, fun old ho => by cases ho; exact h0.of_lookup he⟩, ?_⟩
+      exact h0.put_set (e := { e with vid := vid }) rfl rfl
+  | fetchWith k vid cost =>
+    show admissible sp (.fetchWith k vid cost) (s.resetLogs.fetchWith cfg k vid cost).2 ∧
+      Agree (s.resetLogs.fetchWith cfg k vid cost).1
+        (specStep sp (.fetchWith k vid cost) (s.resetLogs.fetchWith cfg k vid cost).2)
+    rcases fetchWith_cases cfg s.resetLogs k vid cost with
+      ⟨e, he, hret, hm, hs⟩ | ⟨hret, hm, hs⟩ | ⟨e, he, hret, hm, hs⟩
+    · rw [hret]
+      refine ⟨⟨e.vid, false, false, rfl, h0.of_lookup he⟩, ?_⟩
+      exact h0.put_same (e := e.touch s.resetLogs.now cfg.tti) (by rw [touch_vid]; exact h0.of_lookup he) hm hs
+    · rw [hret]
+      exact ⟨⟨vid, false, true, rfl, rfl⟩,
+        h0.put_set (e := Entry.mk' vid cost s.resetLogs.now cfg.ttl cfg.tti) hm hs⟩
+    · rw [hret]
+      exact ⟨⟨e.vid, true, true, rfl, h0.of_lookup he⟩,
+        h0.put_set (e := Entry.mk' vid cost s.resetLogs.now cfg.ttl cfg.tti) hm hs⟩
+  | multiget async ks =>
+    have hr : ∀ r : State P × List (Nat × Nat), Agree r.1 sp → okPairs sp.reg r.2 → (∀ p, p ∈ r.2 → p.1 ∈ ks) →
+        admissible sp (.multiget async ks) (.pairs r.2) ∧
+          Agree (if ks.length > r.2.length then (r.1.hit r.2.length).miss (ks.length - r.2.length)
+                 else r.1.hit r.2.length) sp := by
+      intro r h1 h2 h3
+      refine ⟨⟨r.2, rfl, h2, h3⟩, ?_⟩
+      split <;> exact h1.of_eq rfl rfl
+    cases async with
+    | true =>
+      obtain ⟨h1, h2, h3⟩ := multigetAsync_agree cfg ops sp ks (groupByShard cfg ks) s.resetLogs [] h0
+        (fun p hp => absurd hp List.not_mem_nil) (fun p hp => absurd hp List.not_mem_nil) (groupByShard_sub cfg ks)
+      exact hr (multigetAsync cfg ops s.resetLogs (groupByShard cfg ks) []) h1 h2 h3
+    | false =>
+      obtain ⟨h1, h2, h3⟩ := multigetSync_agree cfg sp ks ks s.resetLogs [] h0
+        (fun p hp => absurd hp List.not_mem_nil) (fun p hp => absurd hp List.not_mem_nil) (fun _ hk => hk)
+      exact hr (multigetSync cfg s.resetLogs ks []) h1 h2 h3
+  | multiInsert items => exact ⟨trivial, multiInsert_agree cfg items _ _ h0⟩
+  | multiRemove ks =>
+    obtain ⟨h1, h2, h3⟩ := multiRemoveLoop_agree cfg ops ks ks s.resetLogs sp sp.reg [] h0
+      (fun p hp => absurd hp List.not_mem_nil) (fun _ _ hx => hx) (fun p hp => absurd hp List.not_mem_nil)
+      (fun _ hk => hk)
+    exact ⟨⟨(multiRemoveLoop cfg ops s.resetLogs ks []).2, rfl, h2, h3⟩, h1⟩
+  | iter batch inter =>
+    obtain ⟨h1, h2⟩ := iterAll_agree cfg ops o batch inter h0
+    exact ⟨⟨(s.resetLogs.iterAll cfg ops o batch inter).2, rfl, h2⟩, h1⟩
+  | iterSnapshot inter =>
+    obtain ⟨h1, h2⟩ := iterSnapshotAll_agree cfg ops o inter h0
+    exact ⟨⟨(s.resetLogs.iterSnapshotAll cfg ops o inter).2, rfl, h2⟩, h1⟩
+  | snapshot =>
+    obtain ⟨h1, h2⟩ := toSnapshot_agree cfg ops o h0
+    exact ⟨⟨(s.resetLogs.toSnapshot cfg ops o).2, rfl, h1⟩, h2⟩
+  | restore =>
+    rw [stepOp_restore]
+    cases hsn : s.snap with
+    | none =>
+      have hsp : sp.snap = none := by rw [h.2, hsn]; rfl
+      refine ⟨trivial, ?_⟩
+      rw [specStep_restore_none hsp]
+      exact h0
+    | some sn =>
+      have hsp : sp.snap = some sn.pairs := by rw [h.2, hsn]; rfl
+      refine ⟨trivial, ?_⟩
+      rw [specStep_restore_some hsp]
+      exact restore_agree cfg p0 s.now sn sp hsp
+  | hold k =>
+    show admissible sp (.hold k) (holdOf k (s.resetLogs.get cfg k)).2 ∧
+      Agree (holdOf k (s.resetLogs.get cfg k)).1 sp
+    obtain ⟨hag, hok⟩ := get_agree cfg k h0
+    obtain ⟨h1, h2⟩ := holdOf_agree k (s.resetLogs.get cfg k) hag
+    exact ⟨⟨(s.resetLogs.get cfg k).2, h2, hok⟩, h1⟩
+  | release => exact ⟨trivial, release_agree h0⟩
+  | gate closed => cases closed <;> exact ⟨trivial, h0.of_eq rfl rfl⟩
+
+/-! ### histories -/
+
+/-- the spec state reached by folding `specStep` over a history and its outputs -/
+def specRun (sp : Spec) : List (Op × Oracle) → List Ret → Spec
+  | (op, _) :: rest, r :: rs => specRun (specStep sp op r) rest rs
+  | _, _ => sp
+
+/-- every output of the history is admissible for the spec state reached before its call -/
+def runAdmissible (sp : Spec) : List (Op × Oracle) → List Ret → Prop
+  | [], [] => True
+  | (op, _) :: rest, r :: rs => admissible sp op r ∧ runAdmissible (specStep sp op r) rest rs
+  | _, _ => False
+
+theorem fresh_agree (cfg : Cfg) (p0 : P) (t0 : Nat) : Agree (State.fresh cfg p0 t0) Spec.empty :=
+  ⟨fun _ _ he => absurd he List.not_mem_nil, rfl⟩
+
+/-- C11 along a history, from any agreeing pair of states -/
+theorem C11_run_from (cfg : Cfg) (ops : PolicyOps P) (p0 : P) :
+    ∀ (hist : List (Op × Oracle)) (s : State P) (sp : Spec), Agree s sp →
+      runAdmissible sp hist (run cfg ops p0 s hist).2 ∧
+        Agree (run cfg ops p0 s hist).1 (specRun sp hist (run cfg ops p0 s hist).2) := by
+  intro hist
+  induction hist with
+  | nil => intro s sp h; exact ⟨trivial, h⟩
+  | cons a rest ih =>
+    intro s sp h
+    obtain ⟨op, o⟩ := a
+    obtain ⟨hadm, hag⟩ := C11_step cfg ops p0 o s sp op h
+    obtain ⟨h1, h2⟩ := ih _ _ hag
+    exact ⟨⟨hadm, h1⟩, h2⟩
+
+theorem runAdmissible_pointwise :
+    ∀ (hist : List (Op × Oracle)) (sp : Spec) (outs : List Ret), runAdmissible sp hist outs →
+      outs.length = hist.length ∧
+      ∀ (i : Nat) (op : Op) (o : Oracle) (r : Ret), hist[i]? = some (op, o) → outs[i]? = some r →
+        admissible (specRun sp (hist.take i) (outs.take i)) op r := by
+  intro hist
+  induction hist with
+  | nil =>
+    intro sp outs h
+    cases outs with
+    | nil => exact ⟨rfl, fun i op o r hi _ => by simp at hi⟩
+    | cons r rs => exact h.elim
+  | cons a rest ih =>
+    intro sp outs h
+    obtain ⟨op0, o0⟩ := a
+    cases outs with
+    | nil => exact h.elim
+    | cons r0 rs =>
+      obtain ⟨hadm, hrest⟩ := h
+      obtain ⟨hlen, hpt⟩ := ih _ _ hrest
+      refine ⟨by simp [hlen], ?_⟩
+      intro i op o r hi ho
+      cases i with
+      | zero =>
+        simp at hi ho
+        obtain ⟨rfl, rfl⟩ := hi
+        subst ho
+        exact hadm
+      | succ j =>
+        simp at hi ho
+        exact hpt j op o r hi ho
+
+/-- **C11, whole histories.**  For every history from a fresh cache (any configuration, any policy,
+    any oracles): there is one output per call, and the output of the `i`-th call is admissible for
+    the register obtained by folding `specStep` over the first `i` calls and their outputs. -/
+theorem C11_run (cfg : Cfg) (ops : PolicyOps P) (p0 : P) (t0 : Nat) (hist : List (Op × Oracle)) :
+    let outs := (run cfg ops p0 (State.fresh cfg p0 t0) hist).2
+    outs.length = hist.length ∧
+    ∀ (i : Nat) (op : Op) (o : Oracle) (r : Ret), hist[i]? = some (op, o) → outs[i]? = some r →
+      admissible (specRun Spec.empty (hist.take i) (outs.take i)) op r :=
+  runAdmissible_pointwise hist Spec.empty _ (C11_run_from cfg ops p0 hist _ _ (fresh_agree cfg p0 t0)).1
+
+/-! ### corollary (a): no cross-key reads -/
+
+/-- `(k, v)` is a value of the PRE-call cache content that the call `op` with outcome `ret` handed to
+    its caller (reads, the value returned by `remove`, the old value of `compute`, the hit / stale
+    value of `fetch_with`, an `or_insert` that returned something else than its argument) -/
+def readsOld (op : Op) (ret : Ret) (k v : Nat) : Prop :=
+  match op with
+  | .get k' => k = k' ∧ ret = .val (some v)
+  | .peek k' => k = k' ∧ ret = .val (some v)
+  | .hold k' => k = k' ∧ ret = .val (some v)
+  | .remove k' => k = k' ∧ ret = .val (some v)
+  | .multiget _ _ => ∃ l, ret = .pairs l ∧ (k, v) ∈ l
+  | .multiRemove _ => ∃ l, ret = .pairs l ∧ (k, v) ∈ l
+  | .iter _ _ => ∃ l, ret = .pairs l ∧ (k, v) ∈ l
+  | .iterSnapshot _ => ∃ l, ret = .pairs l ∧ (k, v) ∈ l
+  | .snapshot => ∃ sn, ret = .snap sn ∧ (k, v) ∈ sn.pairs
+  | .compute k' _ => k = k' ∧ ret = .computed (some (some v))
+  | .fetchWith k' _ _ => k = k' ∧ ∃ stale loader, ret = .loaded v stale loader ∧ (stale || !loader) = true
+  | .orInsert k' w _ => k = k' ∧ ret = .val (some v) ∧ v ≠ w
+  | _ => False
+
+theorem admissible_readsOld {sp : Spec} {op : Op} {ret : Ret} {k v : Nat}
+    (ha : admissible sp op ret) (hr : readsOld op ret k v) : sp.reg k = some v := by
+  cases op <;> first | exact False.elim hr | skip
+  case get k' =>
+    obtain ⟨rfl, hret⟩ := hr
+    obtain ⟨x, hx, hok⟩ := ha
+    rw [hret] at hx; cases hx; exact hok v rfl
+  case peek k' =>
+    obtain ⟨rfl, hret⟩ := hr
+    obtain ⟨x, hx, hok⟩ := ha
+    rw [hret] at hx; cases hx; exact hok v rfl
+  case hold k' =>
+    obtain ⟨rfl, hret⟩ := hr
+    obtain ⟨x, hx, hok⟩ := ha
+    rw [hret] at hx; cases hx; exact hok v rfl
+  case remove k' =>
+    obtain ⟨rfl, hret⟩ := hr
+    obtain ⟨x, hx, hok⟩ := ha
+    rw [hret] at hx; cases hx; exact hok v rfl
+  case multiget a ks =>
+    obtain ⟨l, hret, hm⟩ := hr
+    obtain ⟨l', hx, hok, _⟩ := ha
+    rw [hret] at hx; cases hx; exact hok _ hm
+  case multiRemove ks =>
+    obtain ⟨l, hret, hm⟩ := hr
+    obtain ⟨l', hx, hok, _⟩ := ha
+    rw [hret] at hx; cases hx; exact hok _ hm
+  case iter b i =>
+    obtain ⟨l, hret, hm⟩ := hr
+    obtain ⟨l', hx, hok⟩ := ha
+    rw [hret] at hx; cases hx; exact hok _ hm
+  case iterSnapshot i =>
+    obtain ⟨l, hret, hm⟩ := hr
+    obtain ⟨l', hx, hok⟩ := ha
+    rw [hret] at hx; cases hx; exact hok _ hm
+  case snapshot =>
+    obtain ⟨sn, hret, hm⟩ := hr
+    obtain ⟨sn', hx, hok⟩ := ha
+    rw [hret] at hx; cases hx; exact hok _ hm
+  case compute k' w =>
+    obtain ⟨rfl, hret⟩ := hr
+    obtain ⟨x, hx, hok⟩ := ha
+    rw [hret] at hx; cases hx; exact hok v rfl
+  case fetchWith k' w c =>
+    obtain ⟨rfl, stale, loader, hret, hc⟩ := hr
+    obtain ⟨x, st, ld, hx, hok⟩ := ha
+    rw [hret] at hx; cases hx
+    rw [if_pos hc] at hok; exact hok
+  case orInsert k' w c =>
+    obtain ⟨rfl, hret, hne⟩ := hr
+    obtain ⟨x, hx, hok⟩ := ha
+    rw [hret] at hx; cases hx
+    rcases hok with hok | hok
+    · exact hok
+    · exact absurd hok hne
+
+/-- **no cross-key reads**: whatever a call returns for key `k` out of the cache content is the
+    register content of `k` — the latest un-removed write of `k` itself -/
+theorem no_cross_key (cfg : Cfg) (ops : PolicyOps P) (p0 : P) (o : Oracle) (s : State P) (sp : Spec) (op : Op)
+    (h : Agree s sp) (k v : Nat) (hr : readsOld op (stepOp cfg ops p0 o s op).2 k v) : sp.reg k = some v :=
+  admissible_readsOld (C11_step cfg ops p0 o s sp op h).1 hr
+
+/-- … so, when distinct keys hold distinct value ids (the harness writes a fresh id every time), it is
+    never the binding of another key -/
+theorem no_cross_key_distinct (cfg : Cfg) (ops : PolicyOps P) (p0 : P) (o : Oracle) (s : State P) (sp : Spec)
+    (op : Op) (h : Agree s sp) (hinj : ∀ k1 k2 x, sp.reg k1 = some x → sp.reg k2 = some x → k1 = k2)
+    (k v : Nat) (hr : readsOld op (stepOp cfg ops p0 o s op).2 k v) :
+    ∀ k', k' ≠ k → sp.reg k' ≠ some v :=
+  fun k' hne hk' => hne (hinj k' k v hk' (no_cross_key cfg ops p0 o s sp op h k v hr))
+
+/-! ### corollary (b): no resurrection -/
+
+/-- after `remove k` the key is not resident -/
+theorem remove_absent (cfg : Cfg) (ops : PolicyOps P) (p0 : P) (o : Oracle) (s : State P) (k : Nat) :
+    lookup (stepOp cfg ops p0 o s (.remove k)).1.map k = none := removeKey_absent cfg ops s.resetLogs k
+
+theorem invalidate_absent (cfg : Cfg) (ops : PolicyOps P) (p0 : P) (o : Oracle) (s : State P) (k : Nat) :
+    lookup (stepOp cfg ops p0 o s (.invalidate k)).1.map k = none := removeKey_absent cfg ops s.resetLogs k
+
+theorem clear_empty (cfg : Cfg) (ops : PolicyOps P) (p0 : P) (o : Oracle) (s : State P) :
+    (stepOp cfg ops p0 o s .clear).1.map = [] := clearAll_map cfg ops o s.resetLogs
+
+theorem multiRemove_absent (cfg : Cfg) (ops : PolicyOps P) (p0 : P) (o : Oracle) (s : State P) (ks : List Nat)
+    (k : Nat) (hk : k ∈ ks) : lookup (stepOp cfg ops p0 o s (.multiRemove ks)).1.map k = none :=
+  multiRemoveLoop_absent cfg ops ks s.resetLogs [] k (.inl hk)
+
+theorem get_of_absent (cfg : Cfg) (s : State P) (k : Nat) (h : lookup s.map k = none) :
+    s.get cfg k = (s.miss 1, none) := by
+  unfold State.get; rw [h]
+
+/-- a key that is not resident is read as absent by every single-key read -/
+theorem absent_reads_none (cfg : Cfg) (ops : PolicyOps P) (p0 : P) (o : Oracle) (s : State P) (k : Nat)
+    (h : lookup s.map k = none) :
+    (stepOp cfg ops p0 o s (.get k)).2 = .val none ∧ (stepOp cfg ops p0 o s (.peek k)).2 = .val none ∧
+    (stepOp cfg ops p0 o s (.hold k)).2 = .val none ∧ (stepOp cfg ops p0 o s (.occupied k)).2 = .flag false ∧
+    (stepOp cfg ops p0 o s (.compute k 0)).2 = .computed none := by
+  have h' : lookup s.resetLogs.map k = none := h
+  refine ⟨?_, ?_, ?_, ?_, ?_⟩
+  · show Ret.val (s.resetLogs.get cfg k).2 = _
+    rw [get_of_absent cfg _ k h']
+  · show Ret.val (s.resetLogs.peek cfg k) = _
+    rw [peek_absent cfg _ k h']
+  · show (holdOf k (s.resetLogs.get cfg k)).2 = _
+    rw [get_of_absent cfg _ k h']; rfl
+  · show Ret.flag (s.resetLogs.occupied k) = _
+    unfold State.occupied; rw [h']; rfl
+  · show (s.resetLogs.compute k 0).2 = _
+    unfold State.compute; rw [h']
+
+/-- the call may (re)bind key `k` in the register -/
+def writesKey (op : Op) (k : Nat) : Prop :=
+  match op with
+  | .insert _ k' _ _ => k' = k
+  | .insertTtl _ k' _ _ _ => k' = k
+  | .multiInsert items => ∃ it, it ∈ items ∧ it.1 = k
+  | .orInsert k' _ _ => k' = k
+  | .compute k' _ => k' = k
+  | .fetchWith k' _ _ => k' = k
+  | .restore => True
+  | _ => False
+
+/-- `remove k` / `invalidate k` / `clear` / `multi_remove ∋ k` empty the register at `k` -/
+theorem specStep_unsets (sp : Spec) (k : Nat) (r : Ret) :
+    (specStep sp (.remove k) r).reg k = none ∧ (specStep sp (.invalidate k) r).reg k = none ∧
+    (specStep sp .clear r).reg k = none ∧
+    ∀ ks, k ∈ ks → (specStep sp (.multiRemove ks) r).reg k = none :=
+  ⟨Reg.unset_same _ _, Reg.unset_same _ _, rfl, fun ks hk => Reg.unsetAll_mem ks _ _ hk⟩
+
+/-- an empty register cell stays empty until a call that writes that key -/
+theorem specStep_keeps_absent (sp : Spec) (op : Op) (r : Ret) (k : Nat) (hk : sp.reg k = none)
+    (hw : ¬ writesKey op k) : (specStep sp op r).reg k = none := by
+  cases op <;> first | exact hk | skip
+  case insert a k' v c =>
+    show sp.reg.set k' v k = none
+    rw [Reg.set_other _ _ (fun e => hw e.symm)]; exact hk
+  case insertTtl a k' v c t =>
+    show sp.reg.set k' v k = none
+    rw [Reg.set_other _ _ (fun e => hw e.symm)]; exact hk
+  case multiInsert items =>
+    show sp.reg.setAll (items.map (fun it => (it.1, it.2.1))) k = none
+    rw [Reg.setAll_not_mem _ _ _ ?_]; exact hk
+    intro p hp hpk
+    obtain ⟨it, hit, rfl⟩ := List.mem_map.1 hp
+    exact hw ⟨it, hit, hpk⟩
+  case remove k' =>
+    show sp.reg.unset k' k = none
+    by_cases hkk : k = k'
+    · subst hkk; simp
+    · rw [Reg.unset_other _ hkk]; exact hk
+  case invalidate k' =>
+    show sp.reg.unset k' k = none
+    by_cases hkk : k = k'
+    · subst hkk; simp
+    · rw [Reg.unset_other _ hkk]; exact hk
+  case multiRemove ks => exact Reg.unsetAll_none ks _ _ hk
+  case clear => rfl
+  case orInsert k' v c =>
+    unfold specStep
+    dsimp only
+    split
+    · show sp.reg.set k' v k = none
+      rw [Reg.set_other _ _ (fun e => hw e.symm)]; exact hk
+    · exact hk
+  case compute k' v =>
+    unfold specStep
+    dsimp only
+    split
+    · show sp.reg.set k' v k = none
+      rw [Reg.set_other _ _ (fun e => hw e.symm)]; exact hk
+    · exact hk
+  case fetchWith k' v c =>
+    unfold specStep
+    dsimp only
+    split
+    · show sp.reg.set k' v k = none
+      rw [Reg.set_other _ _ (fun e => hw e.symm)]; exact hk
+    · exact hk
+  case snapshot =>
+    unfold specStep
+    dsimp only
+    split <;> exact hk
+  case restore => exact absurd trivial hw
+
+/-- while the register holds nothing for `k`, no call returns a value for `k` out of the cache -/
+theorem no_resurrection (cfg : Cfg) (ops : PolicyOps P) (p0 : P) (o : Oracle) (s : State P) (sp : Spec) (op : Op)
+    (h : Agree s sp) (k : Nat) (hk : sp.reg k = none) (v : Nat) :
+    ¬ readsOld op (stepOp cfg ops p0 o s op).2 k v := by
+  intro hr
+  rw [no_cross_key cfg ops p0 o s sp op h k v hr] at hk
+  cases hk
+
+/-- **no resurrection**: once the register is empty at `k` (e.g. right after `remove k`, `invalidate k`,
+    `clear`, `multi_remove ∋ k`: `specStep_unsets`), after ANY further calls `mid` none of which writes
+    `k` (and none is `restore`), `k` is not resident and no call returns a value for `k` -/
+theorem no_resurrection_run (cfg : Cfg) (ops : PolicyOps P) (p0 : P) (k : Nat) :
+    ∀ (mid : List (Op × Oracle)) (s : State P) (sp : Spec), Agree s sp → sp.reg k = none →
+      (∀ x, x ∈ mid → ¬ writesKey x.1 k) →
+      lookup (run cfg ops p0 s mid).1.map k = none ∧
+      ∀ (op : Op) (o : Oracle) (v : Nat), ¬ readsOld op (stepOp cfg ops p0 o (run cfg ops p0 s mid).1 op).2 k v := by
+  intro mid
+  induction mid with
+  | nil =>
+    intro s sp h hk _
+    exact ⟨h.absent hk, fun op o v => no_resurrection cfg ops p0 o s sp op h k hk v⟩
+  | cons a rest ih =>
+    intro s sp h hk hmid
+    obtain ⟨op0, o0⟩ := a
+    obtain ⟨_, hag⟩ := C11_step cfg ops p0 o0 s sp op0 h
+    have hk' := specStep_keeps_absent sp op0 (stepOp cfg ops p0 o0 s op0).2 k hk (hmid (op0, o0) List.mem_cons_self)
+    exact ih _ _ hag hk' (fun x hx => hmid x (List.mem_cons_of_mem _ hx))
+
+/-! ### corollary (c): `compute` is one atomic step -/
+
+/-- What is modelled: in the sequential model Q the whole `try_compute_val` call is one critical
+    section (one `stepOp`).  On a resident, un-pinned key it returns the old value id, re-binds
+    exactly that key to the same entry with the new value id, and leaves every other binding
+    untouched.  (No expiry check — the code does none.) -/
+theorem compute_atomic (s : State P) (k vid : Nat) (e : Entry) (he : lookup s.map k = some e)
+    (hp : e.pinned = false) :
+    (s.compute k vid).2 = .computed (some (some e.vid)) ∧
+    lookup (s.compute k vid).1.map k = some { e with vid := vid } ∧
+    (∀ k', k' ≠ k → lookup (s.compute k vid).1.map k' = lookup s.map k') ∧
+    (∀ k' e', k' ≠ k → ((k', e') ∈ (s.compute k vid).1.map ↔ (k', e') ∈ s.map)) := by
+  rcases compute_cases s k vid with ⟨hn, _⟩ | ⟨e1, he1, hp1, _⟩ | ⟨e1, he1, _, heq⟩
+  · rw [hn] at he; cases he
+  · rw [he1] at he; cases he; rw [hp1] at hp; cases hp
+  · rw [he1] at he; cases he
+    rw [heq]
+    refine ⟨rfl, lookup_put_same _ _ _, fun k' hk' => lookup_put_other _ _ hk', ?_⟩
+    intro k' e' hk'
+    show (k', e') ∈ put s.map k _ ↔ _
+    rw [mem_put]
+    constructor
+    · intro hx
+      rcases hx with hx | hx
+      · exact absurd hx.1 hk'
+      · exact hx.1
+    · intro hx; exact .inr ⟨hx, hk'⟩
+
+/-- the other outcomes: absent key → NotFound, pinned value → Fail; the state is unchanged -/
+theorem compute_no_effect (s : State P) (k vid : Nat)
+    (h : lookup s.map k = none ∨ ∃ e, lookup s.map k = some e ∧ e.pinned = true) :
+    (s.compute k vid).1 = s ∧
+      ((s.compute k vid).2 = .computed none ∨ (s.compute k vid).2 = .computed (some none)) := by
+  rcases compute_cases s k vid with ⟨_, heq⟩ | ⟨_, _, _, heq⟩ | ⟨e1, he1, hp1, _⟩
+  · rw [heq]; exact ⟨rfl, .inl rfl⟩
+  · rw [heq]; exact ⟨rfl, .inr rfl⟩
+  · rcases h with h | ⟨e, he, hp⟩
+    · rw [h] at he1; cases he1
+    · rw [he] at he1; cases he1; rw [hp] at hp1; cases hp1
+
+/-! ### corollary (d): `or_insert` inserts at most once -/
+
+theorem orInsert_resident (cfg : Cfg) (s : State P) (k v c : Nat) (e : Entry) (he : lookup s.map k = some e) :
+    s.orInsert cfg k v c = (s, .val (some e.vid)) := by
+  rcases orInsert_cases cfg s k v c with ⟨e1, he1, heq⟩ | ⟨hn, _⟩
+  · rw [he1] at he; cases he; exact heq
+  · rw [hn] at he; cases he
+
+/-- after `or_insert` the key is resident with the value the call returned -/
+theorem orInsert_makes_resident (cfg : Cfg) (s : State P) (k v c : Nat) :
+    ∃ e, lookup (s.orInsert cfg k v c).1.map k = some e ∧ (s.orInsert cfg k v c).2 = .val (some e.vid) := by
+  rcases orInsert_cases cfg s k v c with ⟨e1, he1, heq⟩ | ⟨_, hret, hm, _⟩
+  · rw [heq]; exact ⟨e1, he1, rfl⟩
+  · rw [hm, hret]; exact ⟨_, lookup_put_same _ _ _, rfl⟩
+
+/-- **at most once**: a second `or_insert` on the same key (nothing in between) returns what the
+    first returned and changes nothing at all -/
+theorem orInsert_at_most_once (cfg : Cfg) (s : State P) (k v1 c1 v2 c2 : Nat) :
+    ((s.orInsert cfg k v1 c1).1.orInsert cfg k v2 c2).2 = (s.orInsert cfg k v1 c1).2 ∧
+    ((s.orInsert cfg k v1 c1).1.orInsert cfg k v2 c2).1 = (s.orInsert cfg k v1 c1).1 := by
+  obtain ⟨e, he, hret⟩ := orInsert_makes_resident cfg s k v1 c1
+  rw [orInsert_resident cfg _ k v2 c2 e he, hret]
+  exact ⟨rfl, rfl⟩
+
+/-- the same as two consecutive API calls: same returned value, same bindings -/
+theorem orInsert_at_most_once_step (cfg : Cfg) (ops : PolicyOps P) (p0 : P) (o1 o2 : Oracle) (s : State P)
+    (k v1 c1 v2 c2 : Nat) :
+    (stepOp cfg ops p0 o2 (stepOp cfg ops p0 o1 s (.orInsert k v1 c1)).1 (.orInsert k v2 c2)).2 =
+      (stepOp cfg ops p0 o1 s (.orInsert k v1 c1)).2 ∧
+    (stepOp cfg ops p0 o2 (stepOp cfg ops p0 o1 s (.orInsert k v1 c1)).1 (.orInsert k v2 c2)).1.map =
+      (stepOp cfg ops p0 o1 s (.orInsert k v1 c1)).1.map := by
+  obtain ⟨e, he, hret⟩ := orInsert_makes_resident cfg s.resetLogs k v1 c1
+  show ((s.resetLogs.orInsert cfg k v1 c1).1.resetLogs.orInsert cfg k v2 c2).2 = (s.resetLogs.orInsert cfg k v1 c1).2 ∧
+    ((s.resetLogs.orInsert cfg k v1 c1).1.resetLogs.orInsert cfg k v2 c2).1.map = (s.resetLogs.orInsert cfg k v1 c1).1.map
+  rw [orInsert_resident cfg (s.resetLogs.orInsert cfg k v1 c1).1.resetLogs k v2 c2 e he, hret]
+  exact ⟨rfl, rfl⟩
+
+/-! ### non-vacuity: concrete runs (null policy, default configuration) -/
+section Examples
+
+def cfg0 : Cfg := {}
+def s0 : State Unit := State.fresh cfg0 () 0
+def o0 : Oracle := {}
+
+/-- insert, read it back, overwrite, read the NEW value (never the overwritten one), another key
+    misses, remove returns the latest value, then the key reads as absent -/
+def hist1 : List (Op × Oracle) :=
+  [(.insert false 1 10 1, o0), (.get 1, o0), (.insert false 1 11 1, o0), (.get 1, o0), (.get 2, o0),
+   (.remove 1, o0), (.get 1, o0), (.peek 1, o0)]
+
+example : (run cfg0 nullOps () s0 hist1).2 =
+    [.unit, .val (some 10), .unit, .val (some 11), .val none, .val (some 11), .val none, .val none] := by decide
+
+/-- the register after that history: key 1 written twice then removed -/
+example : (specRun Spec.empty hist1 (run cfg0 nullOps () s0 hist1).2).reg 1 = none := by decide
+example : (specRun Spec.empty (hist1.take 4) ((run cfg0 nullOps () s0 hist1).2.take 4)).reg 1 = some 11 := by decide
+
+/-- entry API, compute, fetch_with, multiget, iterators, snapshot / restore -/
+def hist2 : List (Op × Oracle) :=
+  [(.orInsert 1 20 1, o0), (.orInsert 1 21 1, o0), (.compute 1 22, o0), (.get 1, o0),
+   (.fetchWith 2 30 1, o0), (.fetchWith 2 31 1, o0), (.multiget false [1, 2, 3], o0),
+   (.iter 2 none, o0), (.snapshot, o0), (.clear, o0), (.get 1, o0), (.restore, o0), (.get 1, o0),
+   (.multiRemove [1, 2], o0), (.iterSnapshot none, o0)]
+
+example : ((run cfg0 nullOps () s0 hist2).2.take 8) =
+    [.val (some 20), .val (some 20), .computed (some (some 20)), .val (some 22),
+     .loaded 30 false true, .loaded 30 false false, .pairs [(1, 22), (2, 30)], .pairs [(2, 30), (1, 22)]] := by
+  decide
+
+example : ((run cfg0 nullOps () s0 hist2).2.drop 9) =
+    [.unit, .val none, .unit, .val (some 22), .pairs [(1, 22), (2, 30)], .pairs []] := by decide
+
+/-- hypotheses of `C11_step` are satisfiable on a non-empty state -/
+example : Agree (P := Unit) { map := [(1, { vid := 7, cost := 1 })] } { reg := Reg.empty.set 1 7 } := by
+  refine ⟨?_, rfl⟩
+  intro k e he
+  simp at he
+  obtain ⟨rfl, rfl⟩ := he
+  simp
+
+/-- `readsOld` / `no_cross_key` are not vacuous: the second `get` of `hist1` reads `(1, 11)` -/
+example : readsOld (.get 1) (.val (some 11)) 1 11 := ⟨rfl, rfl⟩
+
+/-- `compute_atomic` hypotheses hold on a concrete state -/
+example : lookup (State.map (P := Unit) { map := [(1, { vid := 7, cost := 1 })] }) 1 = some { vid := 7, cost := 1 } ∧
+    ({ vid := 7, cost := 1 } : Entry).pinned = false := by decide
+
+/-- `no_resurrection_run` hypotheses: empty register cell, a non-writing middle section -/
+example : ¬ writesKey (.get 1) 1 ∧ ¬ writesKey (.insert false 2 5 1) 1 := by
+  refine ⟨fun h => h, fun h => ?_⟩
+  exact absurd (show (2 : Nat) = 1 from h) (by decide)
+
+end Examples
 
 end Fv.Props.C11
